@@ -14,6 +14,7 @@ import (
 	"os"
 	"path/filepath"
 	"runtime"
+	"strings"
 	"testing"
 	"time"
 
@@ -132,7 +133,46 @@ func TestVerifC18Search(t *testing.T) {
 						}
 						multi.AddEpoch(en, &Epoch{epoch: en, sigExists: st, sigToCidIndex: idx})
 					}
-					got, err := multi.findEpochNumberFromSignature(context.Background(), sig)
+					type sres struct {
+						got uint64
+						err error
+					}
+					sch := make(chan sres, 1)
+					go func() {
+						g, e := multi.findEpochNumberFromSignature(context.Background(), sig)
+						sch <- sres{g, e}
+					}()
+					var got uint64
+					var err error
+					select {
+					case r := <-sch:
+						got, err = r.got, r.err
+					case <-time.After(10 * time.Second):
+						// decide by state: every goroutine inside the search parked => it can never return
+						buf := make([]byte, 4<<20)
+						buf = buf[:runtime.Stack(buf, true)]
+						parked, running := 0, 0
+						for _, g := range strings.Split(string(buf), "\n\n") {
+							if !strings.Contains(g, "findEpochNumberFromSignature") && !strings.Contains(g, "FirstSuccess") {
+								continue
+							}
+							hdr := g
+							if k := strings.Index(g, "\n"); k > 0 {
+								hdr = g[:k]
+							}
+							if c18ParkedRe.MatchString(hdr) {
+								parked++
+							} else {
+								running++
+							}
+						}
+						if parked > 0 && running == 0 {
+							rec.Violation("findEpochNumberFromSignature/deadlock", fmt.Sprintf("the search did not return and its %d goroutines are all parked", parked), c)
+						} else {
+							rec.Inconclusive(fmt.Sprintf("the search did not return within the watchdog (%d parked, %d runnable goroutines)", parked, running))
+						}
+						return // the leaked goroutines would distort every later case
+					}
 					rec.Eval(1)
 					rec.Distinct(fmt.Sprintf("%v/%d", kinds, conc))
 					if v%97 == 0 && rep == 0 && conc == 2 {
